@@ -24,9 +24,12 @@ use grin_util::secp::key::SecretKey;
 use grin_util::secp::pedersen::{Commitment, RangeProof};
 use grin_util::static_secp_instance;
 use serde_json::{json, Value};
-use std::collections::HashMap;
+use std::collections::{HashMap, HashSet};
 use std::convert::TryFrom;
 use std::panic::{catch_unwind, AssertUnwindSafe};
+
+mod batch;
+mod state;
 
 /// One model value unit = 15 grin, so that the 60-grin reward is 4 units (DESIGN 2.4).
 const UNIT: u64 = 15_000_000_000;
@@ -41,8 +44,10 @@ fn main() {
 	let rc = match args.pos.get(0).map(|s| s.as_str()) {
 		Some("validate") => validate_cmd(&args),
 		Some("agg") => agg_cmd(&args),
+		Some("batch") => batch::batch_cmd(&args),
+		Some("state") => state::state_cmd(&args),
 		_ => {
-			eprintln!("txbal validate|agg --cases F --out F");
+			eprintln!("txbal validate|agg|batch|state --cases F --out F [--dir D]");
 			2
 		}
 	};
@@ -58,6 +63,9 @@ struct ModelSecp {
 	commits: HashMap<Vec<u8>, (i64, i64)>,
 	kernel_ids: HashMap<Hash, i64>,
 	offsets: HashMap<Vec<u8>, i64>,
+	/// kernels realised with `sg = false` or a value-carrying excess; (commitment, proof) of outputs with `pf = false`
+	pub forged_kernels: HashSet<Hash>,
+	pub forged_outputs: HashSet<(Vec<u8>, Vec<u8>)>,
 	pub proofs_made: usize,
 	pub sigs_made: usize,
 }
@@ -105,6 +113,8 @@ impl ModelSecp {
 			commits: HashMap::new(),
 			kernel_ids: HashMap::new(),
 			offsets: HashMap::new(),
+			forged_kernels: HashSet::new(),
+			forged_outputs: HashSet::new(),
 			proofs_made: 0,
 			sigs_made: 0,
 		}
@@ -143,6 +153,9 @@ impl ModelSecp {
 		let c = self.commit(v, r);
 		// a bad proof is a perfectly good proof of a different commitment
 		let p = if pf { self.proof(v, r) } else { self.proof(v + 1, r) };
+		if !pf {
+			self.forged_outputs.insert((c.0.to_vec(), p.proof.to_vec()));
+		}
 		Output::new(
 			if cb { OutputFeatures::Coinbase } else { OutputFeatures::Plain },
 			c,
@@ -187,8 +200,11 @@ impl ModelSecp {
 			return *kk;
 		}
 		let x = k["x"].as_i64().unwrap();
+		// state plans: an excess x*G + xv*U*H hides xv value units; nobody can sign for it, the
+		// kernel carries a genuine signature for x*G
+		let xv = k.get("xv").and_then(|v| v.as_i64()).unwrap_or(0);
 		let features = Self::features(k);
-		let excess = commit(0, x);
+		let excess = commit(xv, x);
 		let msg = if k["sg"].as_bool().unwrap() {
 			features.kernel_sig_msg().unwrap()
 		} else {
@@ -200,10 +216,11 @@ impl ModelSecp {
 			.unwrap()
 		};
 		let bx = blind(x);
+		let signer = if xv == 0 { excess } else { commit(0, x) };
 		let sig = {
 			let secp = static_secp_instance();
 			let secp = secp.lock();
-			let pk = excess.to_pubkey(&secp).expect("excess pubkey");
+			let pk = signer.to_pubkey(&secp).expect("excess pubkey");
 			aggsig::sign_with_blinding(&secp, &msg, &bx, Some(&pk)).expect("sign")
 		};
 		let kern = TxKernel {
@@ -212,6 +229,9 @@ impl ModelSecp {
 			excess_sig: sig,
 		};
 		self.sigs_made += 1;
+		if xv != 0 || !k["sg"].as_bool().unwrap() {
+			self.forged_kernels.insert(kern.hash());
+		}
 		self.kernel_ids.insert(kern.hash(), k["sid"].as_i64().unwrap_or(-1));
 		self.kernels.insert(key, kern);
 		kern
